@@ -215,14 +215,14 @@ def main():
     p = os.path.join(ROOT, 'confirmations.txt')
     if os.path.exists(p):
         for line in open(p):
-            m = re.match(r'=== ([Cc]\d+(?:-\d+|[a-e])?)\s+(.*)', line.strip())
+            m = re.match(r'=== ([Cc]\d+(?:-\d+|[a-z])?)\s+(.*)', line.strip())
             if m:
                 conf[m.group(1).lower()] = m.group(2)
     results = {}
     p = os.path.join(ROOT, 'results.txt')
     if os.path.exists(p):
         for line in open(p):
-            m = re.match(r'(c\d+(?:-\d+|[a-e])?) vs (C\d+): exit=(\d+)\s*(?:\d+s)?\s*(.*)', line.strip())
+            m = re.match(r'(c\d+(?:-\d+|[a-z])?) vs (C\d+): exit=(\d+)\s*(?:\d+s)?\s*(.*)', line.strip())
             if m:
                 results.setdefault(m.group(1), {})[m.group(2)] = dict(exit=int(m.group(3)), detected=int(m.group(3)) == 1, reported=m.group(4).strip())
     seeds = dict(SEEDS)
@@ -230,7 +230,7 @@ def main():
         if sid in seeds:
             seeds[sid] = dict(seeds[sid], note='patch.diff is the change ported by hand onto the loop as rewritten by fix 95bccf1 (pairs re-unified in variable-id order); the agent\'s original is patch.orig.diff; re-confirmed after porting')
     for sid in sorted(os.listdir(ROOT)):
-        if os.path.isdir(os.path.join(ROOT, sid)) and sid not in seeds and re.match(r'c\d+[a-e]$', sid):
+        if os.path.isdir(os.path.join(ROOT, sid)) and sid not in seeds and re.match(r'c\d+[a-z]$', sid):
             seeds[sid] = from_notes(sid)
     for sid, s in sorted(seeds.items()):
         d = os.path.join(ROOT, sid)
